@@ -42,7 +42,14 @@ def execute_retry(cls, sc, picks=None, rng_factory=None, keep_log=False):
         return execute(cls, sc, picks, rng_factory() if rng_factory else None, keep_log)
     except HarnessError as e:
         log("[retry] harness error, re-running once: %s" % e)
-        return execute(cls, sc, picks, rng_factory() if rng_factory else None, keep_log)
+        try:
+            return execute(cls, sc, picks, rng_factory() if rng_factory else None, keep_log)
+        except HarnessError as e2:
+            if str(e2).startswith("watchdog:") and str(e).startswith("watchdog:"):
+                # twice in a row no actor made progress for the whole watchdog period: the system hangs
+                return {"violation": {"class": "no_progress", "detail": str(e2)[:300]}, "hash": "watchdog",
+                        "log": None, "picks": [], "probes": {}, "faults": {}, "steps": 0, "no_shrink": True}
+            raise
 
 
 # ---------------------------------------------------------------- shrinking
@@ -63,7 +70,7 @@ def shrink(runner, sc, picks, cls_name, budget=160):
         state["budget"] -= 1
         try:
             r = execute(runner, csc, cpicks)
-        except HarnessError:
+        except Exception:
             return False
         return same_class(r, cls_name)
 
@@ -136,6 +143,9 @@ def _work(job):
         res = execute_retry(runner, sc, None, fac)
     except HarnessError as e:
         return {"index": index, "harness_error": str(e)}
+    except Exception:
+        import traceback
+        return {"index": index, "harness_error": "exception in the harness:\n" + traceback.format_exc()}
     out = {"index": index, "hash": res["hash"], "steps": res["steps"], "probes": res["probes"],
            "faults": res["faults"], "violation": res["violation"], "npicks": len(res["picks"]),
            "config": sc.get("config", "extra" if index < 0 else ""), "wall": time.time() - t0,
@@ -143,7 +153,11 @@ def _work(job):
            "nontrivial": bool(_G.get("nontrivial", lambda a, b: True)(sc, res))}
     if index % 997 == 3 or index in (0, 1):
         out["sample"] = {"scenario": strip(sc), "picks": res["picks"][:200]}
-    if res["violation"] is not None and want_shrink:
+    if res["violation"] is not None and res.get("no_shrink"):
+        out["replay"] = {"property": runner.prop, "engine": "psim", "seed": _G["seed"], "run_index": index,
+                         "scenario": strip(sc), "picks": [], "violation": res["violation"], "log_hash": "watchdog",
+                         "replay_stable": True, "note": "watchdog expired twice; replay with the generating seed"}
+    elif res["violation"] is not None and want_shrink:
         cls_name = res["violation"]["class"]
         try:
             # the recorded picks must replay to the same verdict before shrinking
@@ -160,10 +174,10 @@ def _work(job):
                              "scenario": ssc, "picks": spicks, "violation": r1["violation"] or res["violation"],
                              "log_hash": r1["hash"], "log": r1["log"], "replay_stable": stable,
                              "original_picks": len(res["picks"])}
-        except HarnessError as e:
+        except Exception as e:
             out["replay"] = {"property": runner.prop, "engine": "psim", "seed": _G["seed"], "run_index": index,
                              "scenario": strip(sc), "picks": res["picks"], "violation": res["violation"],
-                             "log_hash": res["hash"], "replay_stable": False, "shrink_error": str(e)}
+                             "log_hash": res["hash"], "replay_stable": False, "shrink_error": repr(e)}
     return out
 
 
